@@ -42,6 +42,9 @@ def parseCmd (s : String) : Option Cmd :=
   | "fwd2" => some (.move (.forwardChar 2))
   | "insx" => some (.selfInsert 1 'x')
   | "insab" => some (.insert 1 ['a', 'b'])
+  | "bwdword" => some (.move (.backwardWord 1 .emacs))
+  | "killword" => some (.kill (.forwardWord 1 .afterEnd .emacs))
+  | "delchar" => some (.kill (.forwardChar 1))
   | _ => none
 
 def parseBinds (s : String) : Option (List (List KeyEvent × Cmd)) :=
